@@ -44,6 +44,13 @@ def run(ck):
                                                               "AlignmentResults.filterOutSubsequentAlignmentsForSingleQuery"})
     ck.floor("C10.4 groupby sites of the row grouping functions", n_g, 2)
     per_query_tasks(ck)
+    from .c17 import frame_integrity
+    frame_integrity(ck, "C10.8")
+    ck.clause("C10.7", "what happens to one query's rows does not stop the processing of the other queries' rows: the loops over row "
+                       "groups have no early exit (as C08.5)")
+    from ..report import RuleView
+    from . import c08
+    c08._resolve_conservation(RuleView(ck, {"C08.5": "C10.7"}))
     from ..rules.iters import run_iterator_rule
     n_b = run_iterator_rule(ck, "C10.5")
     ck.floor("C10.5 single-use iterators bound to a local name (repository-wide)", n_b, 6)
@@ -129,10 +136,11 @@ def _is_module_level(f, name: str) -> bool:
     return True
 
 
-def module_state(ck):
+def module_state(ck, fns=None, floor=120):
     ctx = ck.ctx
     p = ctx.p
-    fns, wreach, worker = result_path(ck)
+    if fns is None:
+        fns, wreach, worker = result_path(ck)
     n = 0
     for f in fns:
         if f.is_lambda:
@@ -178,7 +186,9 @@ def module_state(ck):
                 if not is_local and name in f.module.assigns:
                     ck.violation("C10.1", short(f) + ":mutate:" + name, where(f, c), "module-level object mutated at run time",
                                  found=ast.unparse(c)[:120])
-    ck.floor("C10.1 functions scanned for run-time module/class writes", n, 120)
+    ck.floor("C10.1 functions scanned for run-time module/class writes", n, floor)
+    if floor != 120:
+        return
     # import-time singletons (listed, not run-time state)
     singles = []
     for m in p.nontest_modules():
